@@ -242,6 +242,13 @@ func ruleCondSnapshot(c *Ctx, r *R) {
 				for _, lf := range valueLeaves(a.ch, di.calls, 0) {
 					ld, ok := lf.v.(*ssa.UnOp)
 					if !ok || ld.Op != token.MUL || !isCondChanFieldAddr(c, ld.X) {
+						// the snapshot travels in a small struct a helper built (w := condWaiter{cond: c, wake: c.ch}; ...
+						// <-w.wake): what that helper stored into the field
+						if sv := fieldSetByCtor(lf.v, provEnv{chain: lf.chain}); sv != nil {
+							if l2, ok2 := stripChange(sv).(*ssa.UnOp); ok2 && l2.Op == token.MUL && isCondChanFieldAddr(c, l2.X) {
+								continue
+							}
+						}
 						good = false
 						why = "it can be " + path(lf.v)
 					}
@@ -401,6 +408,8 @@ func ruleBroadcastOrder(c *Ctx, r *R) {
 	}
 	_, _, muF := condOwner(c)
 	var cl, st *deepInstr
+	unbindB := bindFuncParams(fn) // (holding(&c.m, c.retireWakeChan))
+	defer unbindB()
 	deep := deepInstrs(fn, 2)
 	// the frames of the deep view: function -> a deep instruction of it (for lock questions about values loaded there)
 	frameOf := map[*ssa.Function]deepInstr{}
@@ -555,6 +564,8 @@ func ruleCondCapacity(c *Ctx, r *R) {
 	// the send happens while c.m is held: Broadcast closes the channel under the write lock, so a send on a snapshot taken
 	// before releasing c.m can hit a closed channel (panic) or wake nobody
 	_, _, muF := condOwner(c)
+	unbindS := bindFuncParams(sig)
+	defer unbindS()
 	for i, cs := range condSends(c, sig) {
 		held := deepLocks(sig, deepInstr{in: cs.op.in, site: cs.op.in, calls: cs.chain})
 		r.ok(held.heldSuffix(muF, false), "xsync.ContextCond.Signal|send-under-lock#"+itoa(i+1), posOf(cs.op.in), "Signal must send on the cond's channel while still holding c.m (read lock): once c.m is released a concurrent Broadcast may close that very channel, and the send panics")
@@ -597,6 +608,9 @@ type condSend struct {
 // condSends: the sends on the cond's channel performed by fn, by the in-package helpers it calls and by the function literals
 // it hands to them.
 func condSends(c *Ctx, fn *ssa.Function) []condSend {
+	// (holding(c.m.RLocker(), c.offerWakeup): the wrapper's func parameter stands for the method value passed)
+	unbind := bindFuncParams(fn)
+	defer unbind()
 	var out []condSend
 	type frame struct {
 		f     *ssa.Function
